@@ -22,10 +22,10 @@ Notation cv_property := (cv_property snake camel screaming).
 Notation cv_enum := (cv_enum screaming).
 Notation field_decl_ok := (field_decl_ok snake).
 Notation fields_ok := (fields_ok snake).
-Notation inline_ok := (inline_ok snake camel screaming true).
-Notation props_inline_ok := (props_inline_ok snake camel screaming true).
-Notation property_inline_ok := (property_inline_ok snake camel screaming true).
-Notation enum_ok := (enum_ok screaming true).
+Notation inline_ok := (inline_ok snake camel screaming).
+Notation props_inline_ok := (props_inline_ok snake camel screaming).
+Notation property_inline_ok := (property_inline_ok snake camel screaming).
+Notation enum_ok := (enum_ok screaming).
 Notation prop_msg_names := (prop_msg_names snake camel).
 Notation prop_enum_names := (prop_enum_names camel).
 
@@ -55,9 +55,9 @@ Proof. reflexivity. Qed.
 Definition finish (io rq op : bool) (sn n : str) (num : N) (c : fcore) (lbl : plabel) (ty : ptype) (tn : str)
            (msgs : list dmsg) (imps : list str) : outcome pres :=
   if rq && op then Err "cannot be both required and optional"
-  else if io && op
-       then Err "optional oneof member"
-       else Ok (mkPres [mkField sn n num ty lbl (op && negb (plabel_eqb lbl LRepeated)) tn io] msgs (fc_enums c)
+  else if io && plabel_eqb lbl LRepeated
+       then Err "an array cannot be an option of a oneof"
+       else Ok (mkPres [mkField sn n num ty lbl (op && negb (plabel_eqb lbl LRepeated) && negb io) tn io] msgs (fc_enums c)
                        (imps ++ if rq then [imp_validate; imp_ext] else [])).
 
 Lemma cv_property_eq ev path io num n rq op f :
@@ -69,7 +69,7 @@ Lemma cv_property_eq ev path io num n rq op f :
                (imp_ext :: fc_imports c ++ if fc_validate c then [imp_validate] else []))
   | FMap it =>
       obind (cv_item ev path (camel n) it) (fun c =>
-        if io then Err "map entry outside its message" else
+        if io then Err "a map cannot be an option of a oneof" else
         finish io rq op (snake n) n num c LRepeated TMessage (map_name (snake n))
                (fc_msgs c ++ [DMsg (map_name (snake n)) MMapEntry [key_field; value_field c] [] []])
                (fc_imports c))
@@ -179,37 +179,27 @@ Proof. induction x as [|c r IH]; cbn; [reflexivity|]. rewrite N.eqb_refl, IH. re
 Lemma has_suffix_app x y : has_suffix y (x ++ y) = true.
 Proof. unfold has_suffix. rewrite rev_app_distr. apply has_prefix_app. Qed.
 
-(* an option that spells the zero value ends in UNSPECIFIED *)
-Lemma zero_spelled_suffix pfx o : zero_spelled pfx o = true -> has_suffix (b "UNSPECIFIED") o = true.
-Proof.
-  unfold zero_spelled, opt_value_name. intros H. apply str_eqb_eq in H.
-  destruct (has_prefix pfx o).
-  - subst o. apply has_suffix_app.
-  - apply app_inv_head in H. subst o. apply (has_suffix_app []).
-Qed.
+(* enum.go isExplicitZero is the contract's "the option spells the zero value" *)
+Lemma explicit_zero_spec pfx o : explicit_zero pfx o = zero_spelled pfx o.
+Proof. reflexivity. Qed.
 
 (* the compiler's enum against the contract: the declared options numbered in order after
-   <PREFIX>UNSPECIFIED = 0 - unless the first option names a zero value of its own (lenient) *)
+   <PREFIX>UNSPECIFIED = 0, for every enum (after fix a65e1f2) *)
 Lemma cv_enum_ok name e : enum_ok name e (cv_enum name e).
 Proof.
   unfold enum_ok, cv_enum, unspecified.
   rewrite enum_prefix_spec. set (pfx := enum_pfx screaming name e).
-  split; [destruct (e_opts e) as [|o r]; [reflexivity|destruct (has_suffix (b "UNSPECIFIED") o); reflexivity]|].
-  intros Hg. specialize (Hg eq_refl). unfold named_zero, strict_opts in *. fold pfx in Hg |- *.
+  unfold strict_opts. fold pfx.
   destruct (e_opts e) as [|o r].
   - cbn [en_name en_vals nth_error length]. repeat split.
     intros i q H. destruct i; discriminate.
-  - destruct (has_suffix (b "UNSPECIFIED") o) eqn:Hs; cbn [en_name en_vals nth_error length].
-    + cbn [andb] in Hg. apply negb_false_iff in Hg. rewrite Hg.
-      rewrite number_opts_length. split; [|split; [reflexivity|]].
-      * unfold zero_spelled in Hg. apply str_eqb_eq in Hg. unfold value_name.
-        unfold opt_value_name in Hg. rewrite Hg. reflexivity.
+  - rewrite explicit_zero_spec. destruct (zero_spelled pfx o) eqn:Hz; cbn [en_name en_vals nth_error length].
+    + rewrite number_opts_length. split; [reflexivity|split; [|split; [reflexivity|]]].
+      * unfold zero_spelled in Hz. apply str_eqb_eq in Hz. unfold value_name.
+        unfold opt_value_name in Hz. rewrite Hz. reflexivity.
       * intros i q Hq. rewrite (number_opts_nth _ 1 r i q Hq).
         unfold opt_value_name, value_name. do 2 f_equal. lia.
-    + assert (Hz : zero_spelled pfx o = false).
-      { destruct (zero_spelled pfx o) eqn:Ez; [|reflexivity].
-        apply zero_spelled_suffix in Ez. congruence. }
-      rewrite Hz. rewrite number_opts_length. repeat split.
+    + rewrite number_opts_length. repeat split.
       intros i q Hq. rewrite (number_opts_nth _ 1 (o :: r) i q Hq).
       unfold opt_value_name, value_name. do 2 f_equal. lia.
 Qed.
@@ -292,10 +282,10 @@ Proof. intros H a Ha. apply H. apply in_or_app. right. exact Ha. Qed.
 (* the property-level wrapper: what [finish] yields *)
 Lemma finish_inv io rq op sn n num c lbl ty tn msgs imps r :
   finish io rq op sn n num c lbl ty tn msgs imps = Ok r ->
-  pr_fields r = [mkField sn n num ty lbl (op && negb (plabel_eqb lbl LRepeated)) tn io] /\ pr_msgs r = msgs /\ pr_enums r = fc_enums c.
+  pr_fields r = [mkField sn n num ty lbl (op && negb (plabel_eqb lbl LRepeated) && negb io) tn io] /\ pr_msgs r = msgs /\ pr_enums r = fc_enums c.
 Proof.
   unfold finish. destruct (rq && op); [discriminate|].
-  destruct (io && _); [discriminate|]. intros H. inversion H. subst. cbn. auto.
+  destruct (io && plabel_eqb lbl LRepeated); [discriminate|]. intros H. inversion H. subst. cbn. auto.
 Qed.
 
 Theorem convert_refines :
@@ -412,7 +402,7 @@ Definition item_total (ev : env) (f : field) : Prop :=
 
 Lemma finish_total io rq op sn n num c lbl ty tn msgs imps :
   rq && op = false ->
-  (io = true -> op = false) ->
+  (io = true -> plabel_eqb lbl LRepeated = false) ->
   exists r, finish io rq op sn n num c lbl ty tn msgs imps = Ok r.
 Proof.
   intros H1 H2. unfold finish. rewrite H1. destruct io.
@@ -448,16 +438,15 @@ Proof.
     apply andb_true_iff in H. destruct H as [H Hw]. apply andb_true_iff in H. destruct H as [H Hio].
     apply andb_true_iff in H. destruct H as [_ Hro]. apply negb_true_iff in Hro.
     rewrite cv_property_eq.
-    assert (Hio' : io = true -> op = false /\ is_repeated f = false).
-    { intros ->. apply andb_true_iff in Hio. destruct Hio as [Hio _]. apply andb_true_iff in Hio.
-      destruct Hio as [Ha Hb]. apply negb_true_iff in Ha, Hb. auto. }
+    assert (Hio' : io = true -> is_repeated f = false).
+    { intros ->. apply andb_true_iff in Hio. destruct Hio as [Ha _]. apply negb_true_iff in Ha. exact Ha. }
     destruct f as [s|rf|nm ps|rf|nm ps|rf|e|it|it].
     1-7: destruct (IH Hw path (camel n)) as [c Hc]; rewrite Hc; cbn [obind];
-         apply finish_total; [exact Hro|intros Hi; destruct (Hio' Hi); auto].
+         apply finish_total; [exact Hro|intros Hi; reflexivity].
     + destruct (IHit Hw path (camel n)) as [c Hc]. rewrite Hc. cbn [obind].
-      apply finish_total; [exact Hro|]. intros Hi. destruct (Hio' Hi) as [Ho _]. exact Ho.
+      apply finish_total; [exact Hro|]. intros Hi. pose proof (Hio' Hi) as Hr. cbn in Hr. discriminate.
     + destruct (IHit Hw path (camel n)) as [c Hc]. rewrite Hc. cbn [obind].
-      destruct io; [destruct (Hio' eq_refl) as [_ Hr]; cbn in Hr; discriminate|].
+      destruct io; [pose proof (Hio' eq_refl) as Hr; cbn in Hr; discriminate|].
       apply finish_total; [exact Hro|]. intros Hi. discriminate.
 Qed.
 
@@ -472,9 +461,9 @@ Notation cv_nested := (cv_nested snake camel screaming).
 Notation cv_nesteds := (cv_nesteds snake camel screaming).
 Notation cv_enum := (cv_enum screaming).
 Notation fields_ok := (fields_ok snake).
-Notation props_inline_ok := (props_inline_ok snake camel screaming true).
-Notation nested_ok := (nested_ok snake camel screaming true).
-Notation nesteds_ok := (nesteds_ok snake camel screaming true).
+Notation props_inline_ok := (props_inline_ok snake camel screaming).
+Notation nested_ok := (nested_ok snake camel screaming).
+Notation nesteds_ok := (nesteds_ok snake camel screaming).
 Notation prop_msg_names := (prop_msg_names snake camel).
 Notation prop_enum_names := (prop_enum_names camel).
 
@@ -530,7 +519,7 @@ Lemma nested_ok_oneof nm ps subs msgs enums :
 Proof. reflexivity. Qed.
 
 Lemma nested_ok_enum e msgs enums :
-  nested_ok (NEnum e) msgs enums = exists de, In de enums /\ enum_ok screaming true (e_name e) e de.
+  nested_ok (NEnum e) msgs enums = exists de, In de enums /\ enum_ok screaming (e_name e) e de.
 Proof. reflexivity. Qed.
 
 Lemma nesteds_ok_cons n r msgs enums :
@@ -610,7 +599,7 @@ Qed.
 
 (* ------------------------------------------------------------------ elements of a file *)
 Notation cv_elements := (cv_elements snake camel screaming).
-Notation element_ok := (element_ok snake camel screaming true).
+Notation element_ok := (element_ok snake camel screaming).
 
 Lemma cv_elements_main ev pkg els : forall main svc top main' svc' top',
   cv_elements ev pkg els main svc top = Ok (main', svc', top') ->
@@ -670,7 +659,7 @@ Qed.
    exactly the declared objects, oneofs and enums *)
 Theorem cv_file_main exports f D :
   cv_file snake camel screaming exports f = Ok D ->
-  exists df rest, D = df :: rest /\ main_file_ok snake camel screaming true f df.
+  exists df rest, D = df :: rest /\ main_file_ok snake camel screaming f df.
 Proof.
   unfold cv_file. intros H. inv_ok H. destruct a0 as [[main svc] top]. inversion H. subst D. clear H.
   eexists. eexists. split; [reflexivity|].
